@@ -179,6 +179,13 @@ def prop(spec, rec):
         labels.add("omits_station")
     for e in spec["scheduler"]["table"]:
         labels.add("vtype_" + e.get("vtype", "none"))
+    for t in ts:
+        for sid, vals in sub[t].items():
+            lv = sc.allowed_levels([x for x in spec["stations"] if x["id"] == sid][0])
+            if any(float(v) not in lv for v in vals) and t < m.end:
+                labels.add("off_level_pilot")
+                if [x for x in spec["stations"] if x["id"] == sid][0]["kind"] == "finite":
+                    labels.add("off_level_pilot_finite_evse")
     rec.case(spec, labels, overlap and (omit or beyond))
 
 
@@ -224,7 +231,7 @@ def subchecks(tier):
             prop,
             quick=500,
             thorough=40000,
-            floors={"json_resume": 0.1, "beyond_horizon_at_last_period": 0.04, "malformed_unknown_station": 0.04, "malformed_unequal_length": 0.02, "overlapping_schedules": 0.3, "omits_station": 0.205, "empty_schedule": 0.1},
+            floors={"json_resume": 0.1, "beyond_horizon_at_last_period": 0.04, "malformed_unknown_station": 0.04, "malformed_unequal_length": 0.02, "overlapping_schedules": 0.3, "omits_station": 0.205, "empty_schedule": 0.1, "off_level_pilot_finite_evse": 0.025},
             min_nontrivial=50,
         )
     ]
